@@ -32,7 +32,7 @@ func c08Mutate(r *fw.Rand, doc []byte, other []byte, format string) ([]byte, str
 		if len(b) == 0 {
 			b = []byte(fw.Pick(r, c08Dict))
 		}
-		m := r.Intn(14)
+		m := r.Intn(17)
 		switch m {
 		case 0: // truncate anywhere
 			b = b[:r.Intn(len(b)+1)]
@@ -164,6 +164,44 @@ func c08Mutate(r *fw.Rand, doc []byte, other []byte, format string) ([]byte, str
 		case 12: // empties
 			b = bytes.Replace(b, []byte(fw.Pick(r, []string{" ", "\n", ":", ",", "0"})), nil, r.Range(1, 5))
 			names = append(names, "remove-chars")
+		case 14, 15: // the value of a quoted attribute (TTML, WebVTT regions, SRT font tags) replaced by another one
+			var spans [][2]int
+			for i := 0; i+2 < len(b); i++ {
+				if b[i] == '=' && (b[i+1] == '"' || b[i+1] == '\'') {
+					if e := bytes.IndexByte(b[i+2:], b[i+1]); e >= 0 && e < 200 {
+						spans = append(spans, [2]int{i + 2, i + 2 + e})
+					}
+				}
+			}
+			if len(spans) > 0 {
+				// several values at once now and then: a combination of attributes may be what it takes
+				for n := r.Range(1, 3); n > 0 && len(spans) > 0; n-- {
+					k := r.Intn(len(spans))
+					sp := spans[k]
+					v := []byte(fw.Pick(r, c08Values))
+					b = append(b[:sp[0]:sp[0]], append(v, b[sp[1]:]...)...)
+					d := len(v) - (sp[1] - sp[0])
+					spans = append(spans[:k], spans[k+1:]...)
+					for q := range spans {
+						if spans[q][0] > sp[0] {
+							spans[q][0] += d
+							spans[q][1] += d
+						}
+					}
+				}
+			}
+			names = append(names, "attr-value")
+		case 16: // one cell of a comma- or space-separated line replaced (SSA styles and events, cue settings, timing lines)
+			ls := splitLines(b)
+			if len(ls) > 0 {
+				i := r.Intn(len(ls))
+				sep := fw.Pick(r, []string{",", " ", ":"})
+				cells := bytes.Split(ls[i], []byte(sep))
+				cells[r.Intn(len(cells))] = []byte(fw.Pick(r, c08Values))
+				ls[i] = bytes.Join(cells, []byte(sep))
+				b = bytes.Join(ls, nil)
+			}
+			names = append(names, "cell")
 		default: // repeat the document
 			if len(b) < 4000 {
 				b = append(b, b...)
@@ -173,6 +211,11 @@ func c08Mutate(r *fw.Rand, doc []byte, other []byte, format string) ([]byte, str
 	}
 	return b, strings.Join(names, "+")
 }
+
+// c08Values: replacement values for attributes and cells (wrong arity, wrong unit, keywords of other attributes)
+var c08Values = []string{"", " ", "auto", "x", "1", "0", "-1", "10%", "10% 20% 30%", "10%  ", "%", "a b", "1px 2px", "1c", "tb", "tbrl", "tblr", "lrtb", "rl",
+	"before", "after", "center", "start", "end", "left", "right", "italic", "bold", "underline", "none", "normal", "00:00:01.000", "1.5s", "-5f", "99999999999999999999t",
+	"#ff0000", "#ff", "rgba(1,2)", "&H", "&Hzz", "-->", "\n", "{", "}", "<", ">", "&", ";", ",,,,,,,,,,", "1,2", "é", "\xff", "\x00", "line:1", "region:r", "id=", "width=", "NaN", "1e309"}
 
 // ttxHostileStream: a valid packet/table layer carrying malformed PES payloads, data units and teletext packets
 func ttxHostileStream(r *fw.Rand) ([]byte, astisub.TeletextOptions) {
@@ -799,7 +842,7 @@ func init() {
 	fw.Register(&fw.Property{
 		ID:    "C08",
 		Level: "exploration",
-		Rule: "reader cases: a seed document (valid documents of every format from the C01-C06 generators, the repository's testdata, hostile transport streams with a valid packet/table layer and malformed PES payloads / data-unit lengths {0,1,2,3,43,44,45,255} / framing codes / Hamming bytes / packet numbers 0..31 / truncated units / missing tables, or short random bytes) is put through 1..3 mutators (truncate anywhere / at a line boundary, delete-duplicate-swap lines, splice two documents, bit flips, random bytes, dictionary tokens inserted or overwriting, cut what follows a token, numeric extremes and empties, chunk removal, STL GSI/TTI field mutators, character removal, doubling) and fed to its own reader and to about half of the other five readers, with random reader options (STL ignore-TCP; teletext page in {0,100,888,899,-1,2^20}, PID in {0,256,8191,70000} and the true values), and now and then through Open on a real file with every extension. Oracle: recover() around each call + worker exit status (fatal errors) + stall detector (a case that does not finish within 40 s is re-run alone three times; three time-outs = violation with the goroutine dump, otherwise inconclusive); a panic whose innermost frames are inside go-astits is counted as excluded. " +
+		Rule: "reader cases: a seed document (valid documents of every format from the C01-C06 generators, the repository's testdata, hostile transport streams with a valid packet/table layer and malformed PES payloads / data-unit lengths {0,1,2,3,43,44,45,255} / framing codes / Hamming bytes / packet numbers 0..31 / truncated units / missing tables, or short random bytes) is put through 1..3 mutators (truncate anywhere / at a line boundary, delete-duplicate-swap lines, splice two documents, bit flips, random bytes, dictionary tokens inserted or overwriting, values of quoted attributes and cells of separated lines replaced from a list of wrong-arity/wrong-unit/foreign-keyword values (one to three at once), cut what follows a token, numeric extremes and empties, chunk removal, STL GSI/TTI field mutators, character removal, doubling) and fed to its own reader and to about half of the other five readers, with random reader options (STL ignore-TCP; teletext page in {0,100,888,899,-1,2^20}, PID in {0,256,8191,70000} and the true values), and now and then through Open on a real file with every extension. Oracle: recover() around each call + worker exit status (fatal errors) + stall detector (a case that does not finish within 40 s is re-run alone three times; three time-outs = violation with the goroutine dump, otherwise inconclusive); a panic whose innermost frames are inside go-astits is counted as excluded. " +
 			"writer cases: cue lists built from the public types with every optional pointer/map independently nil or set, nil/empty Lines and Items, hostile text (leading combining marks, NUL and controls, invalid UTF-8, astral runes, 100 kB lines), negative and huge times, odd metadata, through all five writers and Subtitles.Write. thorough tier: 10 scaling measurements (n vs 8n cues; >40x and >1 s = violation, 12..40x = inconclusive). distinct_nontrivial = distinct inputs.",
 		Assumptions:  []string{"'never loops forever' is decided as bounded progress (40 s stall limit per case, confirmed by three isolated re-runs); 'time proportional to the input' as a three-valued scaling measurement", "nil *Item elements and map keys different from the definition's id are not 'optional parts' and are not generated"},
 		Cases:        func(tier string) int64 { return rN(tier) + wN(tier) + tierN(tier, 0, 10) },
